@@ -22,5 +22,6 @@ var Checks = map[string]Check{
 	"C14": {Fn: CheckC14},
 	"C16": {Fn: CheckC16},
 	"C17": {Fn: CheckC17},
+	"C18": {Fn: CheckC18},
 	"C19": {Fn: CheckC19},
 }
